@@ -84,6 +84,9 @@ def elem_of(it):
       outs.append(a[1])
     elif isinstance(a, tuple) and a[0] == 'call' and a[1] in ('list', 'tuple', 'iter', 'reversed') and len(a) == 3:
       outs.append(elem_of(a[2]))
+    elif isinstance(a, tuple) and a[0] in ('list', 'tuple') and len(a) > 1 and any(isinstance(x, tuple) and x and x[0] == 'rest' for x in a[1:]):
+      # a list grown by append in a loop: its elements are the appended values
+      outs.extend(x[1] if (isinstance(x, tuple) and x and x[0] == 'rest') else x for x in a[1:])
     else:
       outs.append(('elem', a))
   return either(*outs)
@@ -428,8 +431,24 @@ class SymEval(object):
       self._sink(c, env, fn, sink, out, depth, loops)
 
   def _calls(self, expr, env, fn, sink, out, depth, loops):
+    """sink calls of an expression; inside a comprehension its variables stand for an element of what they iterate"""
+    comps = [x for x in walk_no_nested(expr) if isinstance(x, (ast.ListComp, ast.SetComp, ast.GeneratorExp, ast.DictComp))]
+    inside = {}
+    for cp in comps:
+      e2 = None
+      for x in ast.walk(cp):
+        if isinstance(x, ast.Call) and id(x) not in inside:
+          if e2 is None:
+            e2 = overlay(env) if not isinstance(env, dict) or True else dict(env)
+            try:
+              e2 = dict(env)
+            except Exception:
+              e2 = overlay(env)
+            for g in cp.generators:
+              self.bind(g.target, elem_of(self.ev(g.iter, e2, fn)), e2)
+          inside[id(x)] = e2
     for c in [x for x in walk_no_nested(expr) if isinstance(x, ast.Call)]:
-      self._sink(c, env, fn, sink, out, depth, loops)
+      self._sink(c, inside.get(id(c), env), fn, sink, out, depth, loops)
 
   def _sink(self, c, env, fn, sink, out, depth, loops):
     name = sink(c)
